@@ -38,6 +38,8 @@ def run(ctx, chk):
     chk.rule("Q6", "ring operations read the current memory and the current call descriptor")
     chk.rule("Q7", "backend adapters delegate (C02/D3)")
     run_on(fb, chk)
+    from . import xlist
+    xlist.apply("C14", fb, chk)
     n = lambda r: len([i for i in chk.instances if i[0] == r])
     # ring addresses are the translated guest addresses (C13/M3); the lock-backed ring types forward every setter to
     # the same-named state method (C02/D3 applied to the ring adapters)
